@@ -279,6 +279,10 @@ def handleEmit : Handler := fun s =>
         k != "be.glyf_fragment.empty" && k != "be.post.empty-string-data" && k != "be.fvar.psname-ffff"
       let notes := ((← impl.field1? "notes").asString?).getD ""
       -- the property on what the build left behind
+      -- a build directory that another source was built into before holds that build's files too: only this build's
+      -- ids are looked at then (the font comparison and the read-back are what a stale file could disturb)
+      let reused := ((s.field1? "reused_build_dir").bind Sexp.asAtom?) == some "true"
+      let unexpected := if reused then 0 else unexpected
       let oneFilePerId := missing == 0 && shared == 0 && unexpected == 0
       let faithful := readBad == 0
       let oracle := fontsEqual && oneFilePerId && faithful
@@ -303,7 +307,7 @@ def handleEmit : Handler := fun s =>
                detail := s!"plain builds of this source differ among themselves ({plainVariants} variants seen)" }
       else
       some { corr := none, oracle := some oracle, nontrivial := nIds ≥ 10 && readBack ≥ 5, cls := cls,
-             tags := [s!"files{min nFiles 100 / 20 * 20}+"] ++ (if sharedKern > 0 then ["fail-kern-shared-file"] else []) ++
+             tags := [s!"files{min nFiles 100 / 20 * 20}+"] ++ (if reused then ["reused-build-dir"] else []) ++ (if sharedKern > 0 then ["fail-kern-shared-file"] else []) ++
                (if badPost > 0 then ["fail-post-readback"] else []) ++ (if badEmpty > 0 then ["fail-empty-glyph-readback"] else []) ++
                (if badFvar > 0 then ["fail-fvar-readback"] else []),
              detail := if oracle then "" else
